@@ -17,9 +17,10 @@ RULE = ("Batches of 3-6 size-capped reactions (MCS-prone corpus reactions mixed 
         "Hypothesis draws multi-fault plans beyond. Injection (harness only, n_jobs=1): ThreadPool shim that delays the "
         "planned job and shortens the caller's wait to 50 ms (a genuine TimeoutError; the abandoned thread keeps running "
         "and writes late into the returned record), exceptions raised inside MCSMissingGraphAnalyzer.fit / "
-        "FindMissingGraphs.find_missing_parts_pairs. Oracle: no row lost; rows of reactions without a planned fault equal "
+        "FindMissingGraphs.find_missing_parts_pairs. Batches may hold the same reaction several times. Oracle: no row lost; rows of reactions without a planned fault equal "
         "the fault-free baseline of the same batch; every affected row is solved and oracle-balanced, or unsolved with "
-        "reaction == input_reaction and a non-empty issue. Non-trivial = plan with >=1 fault on a reaction that is "
+        "reaction == input_reaction and a non-empty issue; and the same batch run again without faults gives the "
+        "baseline again (nothing is left behind). Non-trivial = plan with >=1 fault on a reaction that is "
         "MCS-solved in the baseline; distinct = distinct (batch, plan).")
 ASSUMPTIONS = [
     "faults are injected with n_jobs=1 only (patches do not reach joblib worker processes; there results are pickled "
@@ -67,7 +68,15 @@ def decode_plan(plan):
 def check_case(case, spec=None):
     res = CaseResult()
     rxs, plan = case["reactions"], case["plan"]
-    base_rows, base_log = baseline(rxs)
+    if case.get("fresh"):
+        # the faulted run is the very first thing a new Balancer sees (the baseline comes from another new Balancer),
+        # so that nothing a fault-free run may have memoised can mask the fault
+        pipe._BAL.clear()
+        base_rows, base_log = run_with_plan(rxs, {}, {})
+        pipe._BAL.clear()
+        res.tag("fresh-balancer")
+    else:
+        base_rows, base_log = baseline(rxs)
     if len(base_rows) != len(rxs):
         res.inconclusive = "baseline row count (C05)"
         return res
@@ -137,6 +146,23 @@ def check_case(case, spec=None):
                          index=i, input=inp, row=pipe.row_key(row), **detail)
             else:
                 res.tag("affected:declined")
+    # aftermath: a fault must not leave anything behind on the Balancer - the same batch run again WITHOUT faults
+    # has to give the fault-free baseline again (rows of the affected reactions included)
+    if case.get("aftermath", True) and not res.failures:
+        try:
+            rows2, _ = run_with_plan(rxs, {}, {})
+        except Exception as e:
+            res.fail("aftermath-run-raises:" + type(e).__name__, "fault contained to its run", error=str(e)[:200], **detail)
+            return res
+        if len(rows2) != len(rxs):
+            res.fail("aftermath-rows-lost", "fault contained to its run", n_out=len(rows2), **detail)
+        elif not any(pipe.is_timeout_issue(r) for r in rows2):
+            for i, (r2, b) in enumerate(zip(rows2, base_rows)):
+                if pipe.row_key(r2) != pipe.row_key(b):
+                    res.fail("fault-left-state-behind", "fault contained to its run", index=i, input=rxs[i],
+                             got=pipe.row_key(r2), baseline=pipe.row_key(b), **detail)
+                    break
+        res.tag("aftermath-run")
     res.nontrivial = n_nt > 0
     res.evals = len(rxs)
     return res
@@ -147,6 +173,10 @@ def fault_case(draw):
     rx = st.one_of(gen.mcs_prone_reaction(22, 3), gen.mcs_prone_reaction(22, 3), gen.mcs_prone_reaction(22, 3),
                    pp.closed_shell_rx(gen.any_reaction(max_heavy=22, max_mols=3, weights=(3, 4, 2, 1))))
     rxs = [r[0] for r in draw(st.lists(rx, min_size=3, max_size=6))]
+    if draw(st.integers(0, 2)) == 0:
+        # the same reaction more than once in the batch (a fault on one copy must not touch the other)
+        k = draw(st.integers(0, len(rxs) - 1))
+        rxs.insert(draw(st.integers(0, len(rxs))), rxs[k])
     n = len(rxs)
     fault = st.fixed_dictionaries({
         "rid": st.integers(0, n - 1),
@@ -171,6 +201,7 @@ def fault_case(draw):
 
 
 FIXED_BATCHES = [
+    ["CC(=O)OCC>>CC(=O)O", "CCO>>CC=O", "CC(=O)OCC>>CC(=O)O", "COC(=O)c1ccccc1>>OC(=O)c1ccccc1", "CC(=O)OCC>>CC(=O)O"],
     ["CC(=O)OCC>>CC(=O)O", "COC(=O)c1ccccc1>>OC(=O)c1ccccc1", "CCO>>CC=O", "CC(=O)Nc1ccccc1>>Nc1ccccc1"],
     ["CCOC(=O)CC>>CCC(=O)O", "CC(=O)OC(C)=O.Nc1ccccc1>>CC(=O)Nc1ccccc1", "CCBr.[OH-]>>CCO", "c1ccccc1COC(C)=O>>c1ccccc1CO",
      "CC(C)(C)OC(=O)NCc1ccccc1>>NCc1ccccc1"],
@@ -214,6 +245,12 @@ def run_shard(spec, seed, tier, shard):
                 continue
             c = {"reactions": rxs, "plan": plan}
             shard.add(c, check_case(c), i)
+            # fragment-analysis faults and 'all conditions fail' plans once more with the fault as the first thing a
+            # brand-new Balancer sees
+            if plan[0]["job"] == "graph" and plan[0]["delay"] < 2 or len(plan) == 3:
+                c2 = dict(c, fresh=True)
+                shard.add(c2, check_case(c2), 100000 + i)
+        pipe._BAL.clear()
         shard.exhaustive = True
 
 
